@@ -44,6 +44,8 @@ package nsqd
 //@   requires ctorOpts(nsqd)
 //@   ensures[identity] result != nil && fresh(result) && result.name == topicName && result.nsqd == nsqd
 //@   ensures[own-id-factory] result.idFactory != nil && fresh(result.idFactory)
+//   (round 7) the callback the ephemeral clean-up will run is the one given
+//@   ensures[delete-callback-kept] result.deleteCallback == deleteCallback
 //@   ensures[has-backend] result.backend != nil
 //@   ensures[starts-unpaused-running] result.paused == 0 && result.exitFlag == 0
 //@   ensures[disk-queue-accepts-every-message] dqCalls != old(dqCalls) ==> dqCalls == old(dqCalls) + 1 && dqName == topicName && dqMinMsg == 26 && dqMaxMsg == curOpts(nsqd).MaxMsgSize + 26
@@ -62,6 +64,8 @@ package nsqd
 //@   ensures[running] result.exitFlag == 0 && result.paused == 0
 //@   ensures[disk-queue-accepts-every-message] dqCalls != old(dqCalls) ==> dqCalls == old(dqCalls) + 1 && dqMinMsg == 26 && dqMaxMsg == curOpts(nsqd).MaxMsgSize + 26
 //@   ensures[queues-distinct] queuesDistinct(result)
+//   (round 7) the callback the ephemeral clean-up will run is the one given
+//@   ensures[delete-callback-kept] result.deleteCallback == deleteCallback
 //@   ensures[ephemeral-by-name] result.ephemeral == isEph(channelName)
 //@   ensures[ephemeral-never-on-disk] result.ephemeral ==> dqCalls == old(dqCalls)
 //@   ensures[durable-on-disk] !result.ephemeral ==> dqCalls == old(dqCalls) + 1
